@@ -12,6 +12,11 @@ Parts (each: TLC-made scenarios -> real code -> recorded trace -> TLC trace vali
          InFlight lines for attestations held while their epoch is refreshed)
   bids   the real block relay's builderBidsCache, auctions held inside the bid strategy and answered up to
          40 slots late; Trace_Bounded (AucStart / AucEnd lines)
+  passes the WIRED family: one real controller on the REAL scheduler (scheduler/advanced, jobs started with its
+         RunJob, virtual time) + real attester / messenger / aggregator per TLC-generated history; the scripted node
+         keeps the answers to attester duties requests back (gate), several head events per slot: scheduling passes
+         of start-up, "Prepare for epoch" and refreshes for ONE epoch overlap and end in any order (the real
+         scheduler answers the second ScheduleJob for a slot ErrJobAlreadyExists); Trace_Bounded
   strat  the seven `first` strategies: goroutines left blocked in their send; Trace_Unblind
   unb    unblindProposal: blocked senders, waiting for ever; Trace_Unblind
 """
@@ -37,6 +42,7 @@ SITES = ["attestationdata/first", "aggregateattestation/first", "beaconblockprop
 PARTS = {
     "ctl": ("./services/controller/standard", "TestVerifC20", "Trace_Bounded"),
     "real": ("./services/controller/standard", "TestVerifC20Real", "Trace_Bounded"),
+    "passes": ("./services/controller/standard", "TestVerifC20Passes", "Trace_Bounded"),
     "bids": ("./services/blockrelay/standard", "TestVerifC20Bids", "Trace_Bounded"),
     "strat": ("./strategies", "TestVerifC20Strategies", "Trace_Unblind"),
     "unb": ("./services/beaconblockproposer/standard", "TestVerifC20Unblind", "Trace_Unblind"),
@@ -114,6 +120,61 @@ def bounded_scenarios(part, cfg, want, num, depth, base, name="scen", inflight=F
             s["slotms"] = 150
         out.append(s)
     return out
+
+
+def passes_scenarios(want, num, base):
+    """histories of the wired family: every scheduling pass is kept back, head events come several to the slot"""
+    hs = vf.tlc_scenarios(sub("passes"), "Scen_Bounded", "Scen_Bounded_passes.cfg", num=num, depth=400, timeout=900,
+                          name="scen-passes")
+
+    def overlaps(h):
+        # passes under way per epoch as the design has them: Start / Prepare / Head with split start passes, Resched ends one
+        now, p, out, n = h[0]["now"], h[0].get("p", 4), [], 0
+        for x in h:
+            ev = x["ev"]
+            if ev == "Advance":
+                now += 1
+            started = []
+            if ev == "Start" and x.get("split"):
+                started = [now // p, now // p + 1]
+            elif ev == "Prepare" and x.get("split"):
+                started = [x["e"]]
+            elif ev == "Head" and x.get("split"):
+                started = list(x.get("r", []))
+            for e in started:
+                if e in out:
+                    n += 1
+                out.append(e)
+            if ev == "Resched" and x["e"] in out:
+                out.remove(x["e"])
+        return n
+
+    firsts, kept = set(), []
+    for h in hs:
+        k = json.dumps(h[:60], sort_keys=True)
+        if k not in firsts and overlaps(h) >= 2:
+            firsts.add(k)
+            kept.append(h)
+    if len(kept) < min(want, 4):
+        raise vf.Broken("only %d histories with overlapping scheduling passes were generated" % len(kept))
+    return [{"sc": base + i, "part": "passes", "fam": h[0].get("fam", "att"), "batch": "passes", "steps": h}
+            for i, h in enumerate(kept[:want])]
+
+
+def overlapping_passes(s, rows):
+    """what the binding really did: scheduling passes that ended while / after another pass for the same epoch set the
+    slot's job up (the REAL scheduler answered ErrJobAlreadyExists), lines recorded with two and more passes for one
+    epoch under way"""
+    n = {"passes_answered_exists": 0, "lines_with_overlapping_passes": 0, "passes_ended": 0}
+    for r in rows:
+        if r.get("ev") == "Resched" and r.get("fired"):
+            n["passes_ended"] += 1
+            if r.get("exists", 0) > 0:
+                n["passes_answered_exists"] += 1
+        es = [x["e"] for x in r.get("passes", [])]
+        if len(es) != len(set(es)):
+            n["lines_with_overlapping_passes"] += 1
+    return n
 
 
 def call_scenarios(tier, rnd):
@@ -225,6 +286,8 @@ def nontrivial_bounded(s, rows):
         return sum(1 for r in rows if r.get("ev") in ("Auction", "AucEnd")) > 64 and late_completions(s, rows)["late_auctions"] > 0
     if s["part"] == "real":
         return any(r.get("ev") == "Sample" and r.get("njobs", 0) > 0 for r in rows)
+    if s["part"] == "passes":
+        return overlapping_passes(s, rows)["passes_answered_exists"] > 0
     return (withdrew and failed) or refreshed_in_flight(s, rows) > 0 or late_completions(s, rows)["late_roots"] > 0
 
 
@@ -272,6 +335,18 @@ def conform(v, part, scenarios, tier, aspects, sig_of, nontrivial, confirm_patie
             for k, m in need.items():
                 if tot.get(k, 0) < m:
                     raise vf.Broken("only %d %s were recorded (need %d): calls completed in slot order" % (tot.get(k, 0), k, m))
+    if part == "passes":
+        tot = {}
+        for s in scenarios:
+            for k, x in overlapping_passes(s, per[s["sc"]]).items():
+                tot[k] = tot.get(k, 0) + x
+        with _lock:
+            for k, x in tot.items():
+                v.coverage[k] = v.coverage.get(k, 0) + x
+        if len(scenarios) > 1 and (tot.get("passes_answered_exists", 0) < 5 or tot.get("lines_with_overlapping_passes", 0) < 10):
+            raise vf.Broken("only %d scheduling passes were answered 'exists' by the real scheduler, %d lines with overlapping "
+                            "passes: the passes of an epoch did not overlap" % (tot.get("passes_answered_exists", 0),
+                                                                               tot.get("lines_with_overlapping_passes", 0)))
     if part == "real":
         with _lock:
             v.coverage["real_refreshes_with_job_in_flight"] = v.coverage.get("real_refreshes_with_job_in_flight", 0) + \
@@ -386,7 +461,11 @@ def model_checking(v, tier):
             # 5 slots late; attestation jobs 3 slots late (across the epoch boundary)
             ("Bounded", "MC_Bounded_sync.cfg", 4), ("Bounded", "MC_Bounded_sub.cfg", 2),
             # pruning by a carried low-water mark: invisible while calls complete in slot order
-            ("Bounded", "MC_Bounded_sweep_inorder.cfg", 2)]
+            ("Bounded", "MC_Bounded_sweep_inorder.cfg", 2),
+            # scheduling passes as processes: up to two passes for ONE epoch under way at once (start-up / Prepare /
+            # refresh passes kept back by the node, two head events per slot), ending in any order; and a pass that
+            # takes its note back when ScheduleJob answers "exists": invisible while passes never overlap
+            ("Bounded", "MC_Bounded_passes.cfg", 4), ("Bounded", "MC_Bounded_schederr_nooverlap.cfg", 2)]
     if tier == "thorough":
         jobs += [("Bounded", "MC_Bounded_big.cfg", 8), ("Unblind", "MC_Unblind_big.cfg", 8),
                  ("Bounded", "MC_Bounded_sync_big.cfg", 4), ("Bounded", "MC_Bounded_late_big.cfg", 4),
@@ -406,13 +485,18 @@ def model_checking(v, tier):
         # reschedule over a running job, two jobs running; and clearing every mark of the epoch violates
         # PendingExact
         sens = [(c, inv, ex.submit(vf.tlc, sub("mc"), "sens-" + c, "Bounded", c + ".cfg", 2, 600))
-                for c, inv in [("MC_Bounded_clearall", "PendingExact")] +
+                for c, inv in [("MC_Bounded_clearall", "PendingExact"),
+                               # ... and must violate PendingExact once the passes of an epoch overlap
+                               ("MC_Bounded_schederr", "PendingExact")] +
                 [("MC_Bounded_reach_" + x, x) for x in ("NeverRefreshOverRunning", "NeverReschedOverRunning", "NeverTwoRunning",
                                                          # out-of-order completion is in the model: a head root / bid /
                                                          # subscription info set for a key far below one set earlier, two
                                                          # message jobs under way at once
-                                                         "NeverLateRoot") +
-                 (("NeverLateBid", "NeverLateSub", "NeverTwoMessages") if tier == "thorough" else ())]]
+                                                         "NeverLateRoot",
+                                                         # two scheduling passes for one epoch under way; a pass about to
+                                                         # be answered "exists"; the same with an attestation job running
+                                                         "NeverPassOverlap", "NeverExists") +
+                 (("NeverLateBid", "NeverLateSub", "NeverTwoMessages", "NeverExistsRunning") if tier == "thorough" else ())]]
         # ... and a housekeeping that prunes with a carried low-water mark (right whenever keys arrive in order:
         # MC_Bounded_sweep_inorder above) must break each bound once they do not
         sens += [("MC_Bounded_sweep_" + a, a, ex.submit(vf.tlc, sub("mc"), "sweep-" + a, "Bounded", "MC_Bounded_sweep_%s.cfg" % a,
@@ -492,6 +576,10 @@ def run(tier):
                                             name="scen-inflight", inflight=True))
         conform(v, "real", sc, tier, REAL_ASPECTS, sig_bounded, nontrivial_bounded)
 
+    def part_passes():
+        sc = passes_scenarios(200 if big else 32, 3000 if big else 400, 4001)
+        conform(v, "passes", sc, tier, BOUNDED_ASPECTS, sig_bounded, nontrivial_bounded)
+
     def part_bids():
         sc = bounded_scenarios("bids", "Scen_Bounded_bids.cfg", 3 if big else 2, 4, 4000, 2001)
         conform(v, "bids", sc, tier, BOUNDED_ASPECTS, sig_bounded, nontrivial_bounded)
@@ -504,7 +592,16 @@ def run(tier):
         conform(v, "unb", calls, tier, CALL_ASPECTS, sig_call, nontrivial_call, True)
         t1.join()
 
-    for fn in (part_ctl, part_real, part_bids, part_calls):
+    # VERIF_C20_PARTS=passes,ctl,... restricts a run to some parts (development aid on a loaded machine; a run
+    # restricted this way says so in its log and is not what evidence/ is written from)
+    only = [x for x in os.environ.get("VERIF_C20_PARTS", "").split(",") if x]
+    parts = {"mc": None, "ctl": part_ctl, "real": part_real, "passes": part_passes, "bids": part_bids, "calls": part_calls}
+    if only:
+        vf.log("RESTRICTED RUN: parts %s only" % only)
+        threads = [t for t in threads if "mc" in only]
+    for name, fn in parts.items():
+        if fn is None or (only and name not in only):
+            continue
         threads.append(threading.Thread(target=guarded, args=(fn,)))
     for t in threads:
         t.start()
